@@ -447,6 +447,109 @@ def proc_case(case, acc: Acc):
         acc.violation(Violation("procedures", {**tags0, "obs": "documentation"}, cs, "", docs[:200]))
 
 
+# ------------------------------------------------------- procedure forms
+PREFIX_SETS = [(), ("pure",), ("elemental",), ("pure", "elemental"), ("recursive",), ("impure", "elemental"), ("recursive", "pure")]
+FUN_TYPES = [None, "integer", "real(8)", "character(len=5)", "type(pt)", "double precision", "logical"]
+DUMMY_ORDERS = ["in_order", "reversed", "joint", "joint_then_single"]
+
+
+def form_cases():
+    for kind in ("subroutine", "function"):
+        for pre in PREFIX_SETS:
+            for ft in (FUN_TYPES if kind == "function" else [None]):
+                for res in ((False, True) if kind == "function" else (False,)):
+                    for n in (1, 2, 3):
+                        for order in DUMMY_ORDERS:
+                            if n == 1 and order != "in_order":
+                                continue
+                            for type_first in (False, True):
+                                if ft is None and type_first:
+                                    continue
+                                yield (kind, pre, ft, res, n, order, type_first)
+
+
+def form_case(case, acc: Acc):
+    """Procedure statements in their other legal spellings: PURE / ELEMENTAL / RECURSIVE / IMPURE prefixes, a function
+    whose type is part of the FUNCTION statement (before or after the other prefixes) with and without RESULT, dummy
+    arguments declared in another order than the argument list or jointly in one statement: hover lists the dummies in
+    *argument-list* order, each with its own declaration, and a function's result with its type."""
+    kind, pre, ft, res, n, order, type_first = case
+    args = [f"arg{i}" for i in range(n)]
+    rname = "res" if res else "target_proc"
+    words = list(pre)
+    if ft:
+        words = ([ft] + words) if type_first else (words + [ft])
+    head = "  " + " ".join(words + [kind]) + " target_proc(" + ", ".join(args) + ")" + (" result(res)" if res else "")
+    L = ["module pm", "  implicit none", "  type :: pt", "    integer :: c", "  end type pt", "contains"]
+    pl = len(L)
+    L.append(head)
+    dtype = "real(8), intent(in)"
+    want = [norm(f"{dtype} :: {a}") for a in args]
+    if order == "in_order":
+        decl = [f"    {dtype} :: {a}" for a in args]
+    elif order == "reversed":
+        decl = [f"    {dtype} :: {a}" for a in reversed(args)]
+    elif order == "joint":
+        decl = [f"    {dtype} :: " + ", ".join(reversed(args))]
+    else:
+        decl = [f"    {dtype} :: " + ", ".join(args[1:]), f"    {dtype} :: {args[0]}"]
+    L += decl
+    rtype = ft
+    if kind == "function":
+        if ft is None:
+            rtype = "integer"
+            L.append(f"    integer :: {rname}")
+        if rtype.startswith("type("):
+            L.append(f"    {rname}%c = 0")
+        elif rtype.startswith("character"):
+            L.append(f"    {rname} = 'x'")
+        elif rtype == "logical":
+            L.append(f"    {rname} = .true.")
+        else:
+            L.append(f"    {rname} = 0")
+    L.append(f"  end {kind} target_proc")
+    L.append("end module pm")
+    text = "\n".join(L) + "\n"
+    sc = worker_scratch("c11")
+    sc.wipe()
+    root = os.path.realpath(sc.path)
+    path = os.path.join(root, "p.f90")
+    with open(path, "w") as f:
+        f.write(text)
+    s = Server([])
+    s.initialize(root)
+    r = s.result("textDocument/hover", Server.tdpp(path, pl, L[pl].index("target_proc") + 3))
+    acc.case(nontrivial_key=repr(case), outcome=(kind, len(pre), bool(ft), res, n, order))
+    tags0 = {"family": "procedure_forms", "kind": kind, "prefixes": "+".join(pre), "typed": ft or "", "result": res, "order": order}
+    cs = {"case": repr(case), "text": text}
+    if not (isinstance(r, dict) and isinstance(r.get("contents"), dict)):
+        acc.violation(Violation("procedure_forms", {**tags0, "obs": "no_hover"}, cs, "a hover", r, what=f"{head.strip()}: {r}"))
+        return
+    m = HOVER_RE.match(r["contents"]["value"])
+    code = m.group("code").split("\n") if m else []
+    first = code[0] if code else ""
+    mm = re.match(r"^(?P<pre>.*?)\b(?P<kind>SUBROUTINE|FUNCTION)\s+(?P<name>\w+)\s*\((?P<args>[^)]*)\)(?:\s*RESULT\s*\((?P<res>\w+)\))?\s*$", first, re.I)
+    ok = bool(mm) and mm.group("kind").lower() == kind and mm.group("name").lower() == "target_proc" \
+        and [a.strip().lower() for a in mm.group("args").split(",") if a.strip()] == args
+    if ok:
+        got_pre = {w.lower() for w in re.findall(r"[A-Za-z]+", re.sub(r"\([^)]*\)", "", mm.group("pre")))}
+        # the type of a function may be restated in the first line or in the result's own line; the other prefixes must be there
+        ok = set(pre) <= got_pre and got_pre - set(pre) <= {w.lower() for w in re.findall(r"[A-Za-z]+", re.sub(r"\([^)]*\)", "", ft or ""))}
+        if kind == "function" and mm.group("res") and mm.group("res").lower() != rname:
+            ok = False
+    if not ok:
+        acc.violation(Violation("procedure_forms", {**tags0, "obs": "signature_line"}, cs, head.strip(), code[:1], what=f"{head.strip()!r}: {code[:1]}"))
+        return
+    got = [norm(c) for c in code[1:1 + n]]
+    if got != want:
+        acc.violation(Violation("procedure_forms", {**tags0, "obs": "dummy_declarations"}, cs, want, got, what=f"{head.strip()!r} dummies declared {order}: {got}"))
+    if kind == "function":
+        rest = [norm(c) for c in code[1 + n:]]
+        typed_in_first = ft is not None and norm(ft) in norm(mm.group("pre"))
+        if norm(f"{rtype} :: {rname}") not in rest and not typed_in_first:
+            acc.violation(Violation("procedure_forms", {**tags0, "obs": "result_declaration"}, cs, f"{rtype} :: {rname}", code[1 + n:], what=f"{head.strip()!r}: result shown as {code[1 + n:]}"))
+
+
 # ------------------------------------------------------------------- signature
 SIG_LIB = """module sm
   implicit none
@@ -753,6 +856,10 @@ def main(ctx):
                    "optionally named by a separate EXTERNAL statement before or after; hover on every entity")
     pacc = core.pmap(proc_case, proc_cases(), chunk=4, budget_s=120, label="C11/proc")
     ctx.add_family("procedures", pacc)
+    facc = core.pmap(form_case, form_cases(), chunk=8, budget_s=120, label="C11/forms")
+    ctx.add_family("procedure_forms", facc, what="PURE/ELEMENTAL/RECURSIVE/IMPURE prefixes x function type in the FUNCTION statement (7 types, before or after the "
+                   "other prefixes) x RESULT clause x 1-3 dummies declared in order / reversed / jointly: dummies listed in argument-list order each with "
+                   "its own declaration, the result with its type")
     sacc = core.pmap(sig_case, CALLS, chunk=1, budget_s=120, label="C11/sig")
     ctx.add_family("signature", sacc)
     tacc = core.pmap(bound_case, [(n, o) for n in BOUND_NAMES for o in ("bound_first", "direct_first")], chunk=1, budget_s=120, label="C11/bound")
@@ -771,6 +878,8 @@ def replay(rec):
         acc.violations = [v for v in acc.violations if v.case["entity"] == c["entity"]]
     elif rec["family"] == "procedures":
         proc_case(eval(c["case"]), acc)
+    elif rec["family"] == "procedure_forms":
+        form_case(eval(c["case"]), acc)
     else:
         sig_case(c["call"], acc)
         acc.violations = [v for v in acc.violations if v.case["character"] == c["character"]]
